@@ -1,5 +1,6 @@
 import PytezosModel.Michelson.Interp.Typing
 import PytezosModel.Michelson.Interp.Spec
+set_option linter.unusedSectionVars false   -- `[Mode]` is a section variable of every lemma here; some do not use it
 /-! Well-typed values and stacks for the modelled core: inversion lemmas for `Typing.checkVal`. -/
 namespace Interp
 
